@@ -320,13 +320,83 @@ def callee_name_grid():
     P = SYM("p")
     rets = [("bare", P, SYM("r")), ("list", L(P), B(".", SYM("r"), I(0))), ("tuple", T(("v", P)), B(".", SYM("r"), SYM("v"))),
             ("nested-tuple", T(("w", T(("v", P)))), B(".", B(".", SYM("r"), SYM("w")), SYM("v"))), ("tuple-in-list", L(T(("v", P))), B(".", B(".", SYM("r"), I(0)), SYM("v"))),
-            ("select-arm", ("select", S("a"), None, [("a", T(("v", P)))]), B(".", SYM("r"), SYM("v")))]
+            ("select-arm", ("select", S("a"), None, [("a", T(("v", P)))]), B(".", SYM("r"), SYM("v"))),
+            # the parameter leaves the function inside a function or a module that is called / instantiated later
+            ("returned-function", ("func", [], P), ("call", SYM("r"), [])),
+            ("returned-function-with-parameter", ("func", ["x"], B("+", P, SYM("x"))), ("call", SYM("r"), [one])),
+            ("returned-function-same-parameter-name", ("func", ["p"], B("+", P, one)), ("call", SYM("r"), [one])),
+            ("function-in-tuple", T(("g", ("func", [], P))), ("call", B(".", SYM("r"), SYM("g")), [])),
+            ("function-in-list", L(("func", [], P)), ("call", B(".", ("group", B(".", SYM("r"), I(0))), SYM("zz")), [])) if False else
+            ("function-returning-tuple", ("func", [], T(("v", P))), B(".", ("group", ("call", SYM("r"), [])), SYM("v"))),
+            ("returned-module", ("module", [("v", P)], B(".", SYM("mod"), SYM("v")), [("let", "x", one)]), ("copy", SYM("r"), [])),
+            ("returned-module-implicit-result", ("module", [("v", P)], None, [("let", "w", B(".", SYM("mod"), SYM("v")))]), B(".", ("group", ("copy", SYM("r"), [])), SYM("w")))]
     for outer_n, outer, after in (("str", S("str"), B("+", P, S("x"))), ("list", L(S("a")), B("+", P, L(S("b")))), ("tuple", T(("a", one)), B(".", P, SYM("a")))):
         for rn, ret, sel in rets:
             for names in (["p"], ["q", "p"], ["p", "q"]):
                 args = [I(7) if n == "p" else S("other") for n in names]
                 yield ("doc", "calleename:%s:%s:%s" % (outer_n, rn, ",".join(names))), [
                     ("let", "p", outer), ("let", "f", ("func", names, ret)), ("let", "r", ("call", SYM("f"), args)), ("let", "y", B("+", sel, one)), ("let", "z", after)]
+
+
+def field_selection_grid():
+    """1..3 fields selected from a value whose shape the checker learns from use (a function parameter) or knows
+    (a let-bound tuple), each by a bare or a quoted name, in one expression and over two statements. Added after two
+    seeded changes (the quoted form of the second selection no longer recovered) were missed."""
+    one = I(1)
+    tup = T(("host", S("h")), ("port", I(80)), ("path", S("/")))
+    names = ["host", "port", "path"]
+
+    def sel(base, n, quoted):
+        return B(".", base, S(n) if quoted else SYM(n))
+
+    def render(base, picks):
+        e = None
+        for n, q in picks:
+            x = sel(base, n, q)
+            x = x if n != "port" else ("cast", "str", x)
+            e = x if e is None else B("+", e, x)
+        return e
+    for k in (1, 2, 3):
+        for order in itertools.permutations(names, k):
+            for quoting in itertools.product((False, True), repeat=k):
+                picks = list(zip(order, quoting))
+                tag = ",".join(("q:" if q else "b:") + n for n, q in picks)
+                yield ("doc", "fieldsel:parameter:%s" % tag), [("let", "t", tup), ("let", "f", ("func", ["p"], render(SYM("p"), picks))), ("let", "r", ("call", SYM("f"), [SYM("t")]))]
+                yield ("doc", "fieldsel:let-bound:%s" % tag), [("let", "t", tup), ("let", "r", render(SYM("t"), picks))]
+                yield ("doc", "fieldsel:callback:%s" % tag), [("let", "t", tup), ("let", "r", ("map", ("func", ["p"], render(SYM("p"), picks)), L(SYM("t"))))]
+                if k >= 2:
+                    # the selections spread over two statements of a module body
+                    yield ("doc", "fieldsel:module-parameter:%s" % tag), [
+                        ("let", "m", ("module", [("p", tup)], None, [("let", "a", render(B(".", SYM("mod"), SYM("p")), picks[:1])), ("let", "b", render(B(".", SYM("mod"), SYM("p")), picks[1:]))])),
+                        ("let", "r", ("copy", SYM("m"), []))]
+
+
+def nested_module_grid():
+    """A module defined inside a module body, and what the outer body binds before / after it: the names local to
+    either body must not reach the file's own bindings of the same name (which are used afterwards). Added after a
+    seeded change (the checker's nesting counter reset instead of decremented on leaving a module) was missed."""
+    one = I(1)
+    inner = ("module", [("a", one)], None, [("let", "v", B("+", B(".", SYM("mod"), SYM("a")), one))])
+    inner_named = ("module", [("a", one)], None, [("let", "port", S("inner"))])
+    for outer_n, outer, after in (("int", I(8080), B("+", SYM("port"), one)), ("str", S("s"), B("+", SYM("port"), S("x"))), ("list", L(one), B("+", SYM("port"), L(I(2)))),
+                                  ("tuple", T(("a", one)), B(".", SYM("port"), SYM("a")))):
+        for local_n, local in (("str", S("http")), ("int", I(1)), ("tuple", T(("z", one))), ("list", L(S("q")))):
+            if local_n == outer_n:
+                continue
+            for inn_n, inn in (("plain", inner), ("binds-the-name-too", inner_named)):
+                bodies = {
+                    "local-after-inner-module": [("let", "inner", inn), ("let", "port", local)],
+                    "local-before-inner-module": [("let", "port", local), ("let", "inner", inn)],
+                    "local-between-two-inner-modules": [("let", "inner", inn), ("let", "port", local), ("let", "inner2", inn)],
+                    "inner-module-instantiated-then-local": [("let", "inner", inn), ("let", "i", ("copy", SYM("inner"), [])), ("let", "port", local)],
+                }
+                for bn, body in bodies.items():
+                    m = ("module", [("q", one)], None, body)
+                    yield ("doc", "nestedmod:%s:%s:%s:%s" % (outer_n, local_n, inn_n, bn)), [("let", "port", outer), ("let", "outer", m), ("let", "r", after)]
+                    yield ("doc", "nestedmod-used:%s:%s:%s:%s" % (outer_n, local_n, inn_n, bn)), [("let", "port", outer), ("let", "outer", m), ("let", "o", ("copy", SYM("outer"), [])), ("let", "r", after)]
+    # three levels
+    deep = ("module", [("q", one)], None, [("let", "mid", ("module", [("q", one)], None, [("let", "inner", inner), ("let", "port", S("mid"))])), ("let", "port", L(one))])
+    yield ("doc", "nestedmod:three-levels"), [("let", "port", I(8080)), ("let", "outer", deep), ("let", "r", B("+", SYM("port"), one))]
 
 
 def nested_call_grid():
@@ -379,6 +449,18 @@ RAW_FORMS += [
     ("std-import-with-unrelated-std-directory", 'let lists = import "std/lists.ucg";\nlet len = lists.len;\nlet n = len([1, 2]) + 1;'),
     ("select-arm-any-after-narrowed", 'let k = "b";\nlet t = {p = 1, q = 2};\nlet inner = select (k, {a = 1}) => {a = {a = 2}};\n'
                                       'let v = select (k, NULL) => {a = inner, b = map(func (n, x) => [n, x], t)};\nlet w = v.p + 1;'),
+]
+RAW_FORMS += [
+    # reported by the fourth-round agent on the unchanged tree: values whose static shape is narrower than what the VM accepts
+    ("lazy-select-touches-other-fields", 'let f = func (arg) => select (arg.kind, 0) => {x = arg.a, y = arg.b};\nlet v = f({kind = "x", a = 1, other = 2}) + 1;'),
+    ("module-list-parameter-overridden-with-other-elements", 'let m = module {l = [1]} => (r) {\n    let r = mod.l;\n};\nlet v = m{l = ["a"]};'),
+    ("module-tuple-parameter-overridden-with-other-fields", 'let m = module {t = {a = 1}} => (r) {\n    let r = mod.t;\n};\nlet w = m{t = {b = 2}};'),
+    ("module-out-expression-selects-field-the-default-lacks", 'let m = module {cfg = {a = 1}} => (mod.cfg.b) {\n    let unused = 1;\n};\nlet v = m{cfg = {a = 1, b = 2}} + 1;'),
+    ("import-as-function-argument", 'let lib = import "./c07lib/b.ucg";\nlet f = func (c) => c.val + 1;\nlet v = f(lib);'),
+    ("import-as-module-parameter", 'let lib = import "./c07lib/b.ucg";\nlet m = module {cfg = {val = 1}} => (r) {\n    let r = mod.cfg.val + 1;\n};\nlet v = m{cfg = lib};'),
+    ("copy-of-included-tuple-keeps-included-fields", 'let base = include json "./c07data.json";\nlet c = base{port = 1};\nlet v = c.v + 1;'),
+    ("reduce-callback-widens-the-accumulator", 'let r = reduce(func (acc, x) => {count = acc.count + 1, last = x}, {count = 0}, [1, 2]);\nlet v = r.last + 1;'),
+    ("reduce-callback-widens-the-accumulator-over-tuple", 'let r = reduce(func (acc, k, x) => {count = acc.count + 1, last = x}, {count = 0}, {p = 1});\nlet v = r.last + 1;'),
 ]
 RAW_FILES = {"std/lists.ucg": "let unrelated = 1;\n", "c07lib/a.ucg": 'let b = import "./b.ucg";\nlet v = b.val + 1;\n', "c07lib/b.ucg": "let val = 41;\n", "b.ucg": 'let val = "forty-one";\n',
              "c07lib/c.ucg": 'let d = import "./d.ucg";\nlet v = d.only_here;\n', "c07lib/d.ucg": "let only_here = 1;\n", "d.ucg": "let other = 2;\n",
@@ -622,6 +704,10 @@ def run(ctx):
             yield ("doc", d, st)
         for d, st in copy_override_grid():
             yield ("doc", d, st)
+        for d, st in field_selection_grid():
+            yield ("doc", d, st)
+        for d, st in nested_module_grid():
+            yield ("doc", d, st)
         for op in c01.OPS:
             for a in range(c01.NLEAVES):
                 for b in range(c01.NLEAVES):
@@ -651,7 +737,7 @@ def run(ctx):
     # the same comparison with --no-strict on both sides (missing fields and unset variables are
     # NULL there): documented forms, the three grids, S1 and S2
     def ns_descs():
-        for d, st in itertools.chain(documented_forms(), function_grid(), nested_call_grid(), producer_consumer_grid(), select_arm_grid(), callback_name_grid(), function_result_use_grid(), copy_override_grid(), callee_name_grid()):
+        for d, st in itertools.chain(documented_forms(), function_grid(), nested_call_grid(), producer_consumer_grid(), select_arm_grid(), callback_name_grid(), function_result_use_grid(), copy_override_grid(), callee_name_grid(), field_selection_grid(), nested_module_grid()):
             if d[1].startswith("fgrid2:"):
                 continue
             yield ("doc", d, st)
